@@ -201,7 +201,8 @@ func runPub(b []byte) string {
 	if ok != (err == nil) {
 		return fmt.Sprintf("NewPublicKey accepted=%v, reference (valid non-identity SEC 1 point) = %v", err == nil, ok)
 	}
-	k2, err2 := secec.ParseASN1PublicKey(ref.SPKIBuild(b))
+	spki := ref.SPKIBuild(b)
+	k2, err2 := secec.ParseASN1PublicKey(spki)
 	if ok != (err2 == nil) {
 		return fmt.Sprintf("ParseASN1PublicKey accepted=%v, reference %v", err2 == nil, ok)
 	}
@@ -235,6 +236,15 @@ func runPub(b []byte) string {
 	}
 	if m := checkPub(k, want); m != "" {
 		return "after the caller overwrote the import buffer: " + m
+	}
+	for i := range spki {
+		spki[i] ^= 0xff
+	}
+	if m := checkPub(k2, want); m != "" {
+		return "after the caller overwrote the SubjectPublicKeyInfo buffer the key was parsed from: " + m
+	}
+	if !k.Equal(k2) || !k2.Equal(k) {
+		return "after the caller overwrote both import buffers the two keys are no longer Equal"
 	}
 	return ""
 }
@@ -466,6 +476,9 @@ func main() {
 			seen[string(b)] = true
 			pubs = append(pubs, b)
 		}
+	}
+	for _, b := range mc.SEC1Extras() { // limb near misses of the curve equation, aliases over the whole non-canonical window
+		add(b)
 	}
 	for _, p := range pts {
 		if p.P.Inf {
